@@ -151,7 +151,14 @@ def main(pid, extra_units=None, extra_bounds=None, extra_uncovered=None, post=No
     us, st = units_for(pid, quick)
     if extra_units:
         us += extra_units(quick)
-    rep = run_property(pid, us, VALIDATE_OPS[pid], st,
+    xj = []
+    if pid == 'C20':
+        # the same diagram retained twice in one environment with two independent filters (state threaded through)
+        xj.append(('history retain ; retain k=2', unit_pair, ('retain', 'retain', 2, {})))
+        xj.append(('history retain ; retain k=3', unit_pair, ('retain', 'retain', 3, {})))
+    if pid == 'C03':
+        pass
+    rep = run_property(pid, us, VALIDATE_OPS[pid], st, extra_jobs=xj,
                        bounds=dict({'variables_k': 'full recursion k=%d; induction steps k=%d; bodies with callees by contract k=%d; counting units k=2%s' % (
                            3 if quick else 4, 5 if quick else 6, 4 if quick else 5, '' if quick else '..3'),
                            'operands': 'every Boolean function of k variables per operand (symbolic truth tables): all 2^(2^k) functions, every argument position'},
